@@ -278,6 +278,16 @@ def run_check(prop, mod, tier, seed):
         errors.append("translator validation failed: %r\n%s" % (ex, traceback.format_exc()))
 
     obls = mod.obligations(tier)
+    if tier == "thorough":
+        # the thorough tier contains the quick tier: an obligation whose larger bound does not finish inside its budget must
+        # not make the deep run weaker than the everyday one
+        def sig(o):
+            return json.dumps([o.name, o.bounds], sort_keys=True, default=str)
+        have = set(sig(o) for o in obls)
+        extra = [o for o in mod.obligations("quick") if sig(o) not in have]
+        for o in extra:
+            o.name = o.name + "@quick-bounds"
+        obls = extra + obls
     for o in obls:
         _OBLS[o.name] = o
     _KNOWN_SIGS.update(k.get("signature") for k in load_known(prop))
